@@ -221,6 +221,30 @@ def _positive_controls(ctx):
          "    for g in sorted(set(names)):\n"
          "        res[g] = rng.choice(5, 2)\n"
          "    out.create_dataset('a', data=res['a'])\n", False),
+        # floating-point accumulation in hash order, through a list of
+        # lists and through a callee that accumulates into its argument
+        ('bad_accumulation_in_set_order',
+         "def f(paths, n, out):\n"
+         "    paths = list(set(paths))\n"
+         "    work = []\n"
+         "    for i in range(n):\n"
+         "        work.append([])\n"
+         "    j = 0\n"
+         "    for p in paths:\n"
+         "        work[j].append((p, 0, 1))\n"
+         "        j += 1\n"
+         "    for spec in work:\n"
+         "        buf = np.zeros(3)\n"
+         "        for c in spec:\n"
+         "            buf[0] += len(c)\n"
+         "        out.create_dataset('b', data=buf)\n", True),
+        ('good_accumulation_in_sorted_order',
+         "def f(paths, out):\n"
+         "    paths = sorted(set(paths))\n"
+         "    buf = np.zeros(3)\n"
+         "    for c in paths:\n"
+         "        buf[0] += len(c)\n"
+         "    out.create_dataset('b', data=buf)\n", False),
         # key order of a nested dict filled from a hash-ordered list
         ('bad_nested_key_order',
          "def f(names, levels, rng, out):\n"
